@@ -207,6 +207,9 @@ def _root_place(body, o, depth=6):
             o = rv["o"]
         elif rv.get("k") == "Ref":
             o = {"p": rv["p"]}
+        elif rv.get("k") == "Call" and (rv.get("f") or "").rsplit("::", 1)[-1] in ("deref", "deref_mut", "as_ref", "as_slice", "as_mut", "borrow") \
+                and len(rv["args"]) == 1:
+            o = rv["args"][0]   # a view of the same collection
         else:
             return p
         depth -= 1
@@ -331,7 +334,7 @@ def d2_valid_constant(body, site):
             return "D2 Regex::new of the valid literal %r" % v
         return None
     if m in SAFE_CONST_CALLS:
-        vals = [const_val(a) for a in c["args"][1:]]
+        vals = [const_val(a) for a in (c["args"] if m == "try_days" else c["args"][1:])]
         if all(isinstance(v, int) for v in vals) and SAFE_CONST_CALLS[m](vals):
             return "D2 %s with in-range constants %s" % (m, vals)
     return None
@@ -517,7 +520,7 @@ def d8_constant_arithmetic(body, site):
             x, y = const_val(rb["a"]), const_val(rb["b"])
             if isinstance(x, int) and isinstance(y, int) and 0 <= x - y < 32:
                 return "D8 shift by the constant %d - %d" % (x, y)
-        pb = op_place(m["b"])
+        pb = op_place(body.trace(m["b"])) if isinstance(body.trace(m["b"]), dict) and "p" in body.trace(m["b"]) else op_place(m["b"])
         if pb is not None and pb["pr"] == [".0"]:
             ds = body.defs_of(pb["l"])
             if len(ds) == 1 and ds[0][3].get("k") == "Bin" and ds[0][3]["op"].startswith("Sub"):
@@ -529,7 +532,8 @@ def d8_constant_arithmetic(body, site):
         if r is not None and 0 <= r < 2 ** 31:
             return "D8 constant operands %d %s %d" % (a, op, b)
     if op == "Mul":
-        pa = op_place(m["a"])
+        ta = body.trace(m["a"])
+        pa = op_place(ta) if isinstance(ta, dict) and "p" in ta else op_place(m["a"])
         if pa is not None and pa["pr"] == [".0"] and isinstance(b, int):
             ds = body.defs_of(pa["l"])
             if len(ds) == 1 and ds[0][3].get("k") == "Bin":
@@ -537,6 +541,286 @@ def d8_constant_arithmetic(body, site):
                 if isinstance(x, int) and isinstance(y, int) and x * y * b < 2 ** 31:
                     return "D8 constant product %d * %d * %d" % (x, y, b)
     return None
+
+
+def _range_consts(body, o):
+    """(start, end) of a constant Range / RangeTo aggregate operand"""
+    rv = body.trace(o)
+    if isinstance(rv, dict) and rv.get("k") == "Agg" and rv["ak"].startswith("Adt:core::ops::range::Range"):
+        vals = [const_val(body.trace(x)) for x in rv["ops"]]
+        if rv["ak"].endswith("RangeTo:RangeTo") and len(vals) == 1:
+            return 0, vals[0]
+        if len(vals) == 2:
+            return vals[0], vals[1]
+    return None
+
+
+def d3b_constant_range(body, site):
+    """slice by a constant range a..b of a place whose length is bounded below (>= b) by a dominating len test"""
+    if site.kind != "call:index":
+        return None
+    t = site.term
+    r = _range_consts(body, t["args"][1]) if len(t["args"]) > 1 else None
+    if r is None or not isinstance(r[0], int) or not isinstance(r[1], int) or r[0] > r[1]:
+        return None
+    target = _root_place(body, t["args"][0])
+    for blk, lp, lower in _len_guards(body):
+        if lower >= r[1] and _same_place(lp, target) and body.dominates(blk, site.bb) and len(body.pred[blk]) == 1:
+            return "D3 range %d..%d within the guarded length (>= %d) of %s" % (r[0], r[1], lower, place_str(target))
+    return None
+
+
+def d3c_fixed_vec(body, site):
+    """constant index into a vector built by vec![x; N] with N > index"""
+    if site.kind != "call:index":
+        return None
+    t = site.term
+    idx = const_val(body.trace(t["args"][1])) if len(t["args"]) > 1 else None
+    if not isinstance(idx, int):
+        return None
+    target = _root_place(body, t["args"][0])
+    if target is None or target["pr"]:
+        return None
+    ds = body.defs_of(target["l"])
+    if len(ds) == 1 and ds[0][3].get("k") == "Call" and (ds[0][3].get("inst") or ds[0][3].get("f") or "").endswith("vec::from_elem"):
+        n = const_val(body.trace(ds[0][3]["args"][1]))
+        if isinstance(n, int) and n > idx:
+            return "D3 index %d into vec![_; %d]" % (idx, n)
+    return None
+
+
+def d12_array_from_slice(body, site):
+    """<[T; N]>::try_from(&s[a..b]).unwrap() with b - a == N"""
+    if site.kind != "call:unwrap":
+        return None
+    rv = body.trace(site.term["args"][0])
+    if not (isinstance(rv, dict) and rv.get("k") == "Call" and (rv.get("f") or "").endswith("TryInto::try_into")):
+        return None
+    inner = body.trace(rv["args"][0])
+    if isinstance(inner, dict) and inner.get("k") == "Call" and callee_kind(inner) == "index":
+        r = _range_consts(body, inner["args"][1])
+        ty = body.local_ty(site.term["dest"]["l"]) if not site.term["dest"]["pr"] else ""
+        m = re.search(r"\[u8; (\d+)\]", ty)
+        if r and m and isinstance(r[0], int) and isinstance(r[1], int) and r[1] - r[0] == int(m.group(1)):
+            return "D12 array of %s bytes from the %d-byte slice %d..%d" % (m.group(1), r[1] - r[0], r[0], r[1])
+    return None
+
+
+def d13_captures_group0(body, site):
+    """regex::Captures[0]: the whole match always exists"""
+    if site.kind != "call:index":
+        return None
+    t = site.term
+    cal = t.get("inst") or t.get("f") or ""
+    if "regex::regex::string::Captures" in cal or "Captures" in (body.local_ty(op_place(t["args"][0])["l"]) if op_place(t["args"][0]) else ""):
+        idx = const_val(body.trace(t["args"][1]))
+        if idx == 0:
+            return "D13 capture group 0 (the whole match) always exists"
+    return None
+
+
+def d14_constant_divisor(body, site):
+    if site.kind not in ("assert:DivisionByZero", "assert:RemainderByZero"):
+        return None
+    rv = body.trace(site.term["cond"])
+    if isinstance(rv, dict) and rv.get("k") == "Bin" and rv["op"] == "Eq":
+        a, b = const_val(rv["a"]), const_val(rv["b"])
+        if isinstance(a, int) and a != 0 and b == 0:
+            return "D14 division by the non-zero constant %d" % a
+    return None
+
+
+NONEMPTY_TAKERS = ("slice::first", "slice::last", "VecDeque::pop_front", "VecDeque::front", "Vec::pop", "VecDeque::pop_back",
+                   "slice::first_mut", "slice::last_mut")
+
+
+def _bool_call_facts(body, methods):
+    """[(block entered only when the call returned `val`, val, callee, [arg root places])] for boolean-returning calls"""
+    out = []
+    for i, t in body.calls():
+        cal = t.get("inst") or t.get("f") or ""
+        m = cal.rsplit("::", 1)[-1]
+        if m not in methods or "t" not in t:
+            continue
+        cur = t["t"]
+        sw = body.blocks[cur]["term"]
+        hops = 0
+        while sw["k"] == "Goto" and hops < 3:
+            cur = sw["t"]
+            sw = body.blocks[cur]["term"]
+            hops += 1
+        if sw["k"] != "Sw":
+            continue
+        sp = op_place(sw["o"])
+        negated = False
+        if sp is None:
+            continue
+        if not _same_place(sp, t["dest"]):
+            ds = body.defs_of(sp["l"])
+            if len(ds) == 1 and ds[0][3].get("k") == "Un" and ds[0][3]["op"] == "Not" and _same_place(op_place(ds[0][3]["a"]), t["dest"]):
+                negated = True
+            else:
+                continue
+        tt = _bool_switch_targets(sw)
+        if tt is None:
+            continue
+        true_t, false_t = tt
+        if negated:
+            true_t, false_t = false_t, true_t
+        args = [_root_place(body, a) for a in t["args"]]
+        if true_t != false_t:
+            out.append((true_t, True, m, args, t))
+            out.append((false_t, False, m, args, t))
+    return out
+
+
+def d1b_nonempty(body, site):
+    """first()/last()/pop_front()...unwrap() on a collection whose is_empty() is false on every path here"""
+    if site.kind not in ("call:unwrap", "call:expect"):
+        return None
+    rv = body.trace(site.term["args"][0])
+    if not (isinstance(rv, dict) and rv.get("k") == "Call"):
+        return None
+    cal = rv.get("inst") or rv.get("f") or ""
+    if not any(cal.endswith(x) for x in NONEMPTY_TAKERS):
+        return None
+    target = _root_place(body, rv["args"][0])
+    for blk, val, m, args, t in _bool_call_facts(body, ("is_empty",)):
+        if val is False and args and _same_place(args[0], target) and body.dominates(blk, site.bb) and len(body.pred[blk]) == 1:
+            return "D1 %s() of %s, which is not empty here (is_empty() == false)" % (cal.rsplit("::", 1)[-1], place_str(target))
+    return None
+
+
+def d15_contains_key(body, site):
+    """map[&k] / map.get(&k).unwrap() / get_mut(&k).unwrap() dominated by contains_key(&k) == true on the same map and key"""
+    t = site.term
+    if site.kind == "call:index":
+        mp, key = _root_place(body, t["args"][0]), _root_place(body, t["args"][1])
+    elif site.kind == "call:unwrap":
+        rv = body.trace(t["args"][0])
+        if not (isinstance(rv, dict) and rv.get("k") == "Call"):
+            return None
+        cal = rv.get("inst") or rv.get("f") or ""
+        if not (cal.endswith("HashMap::get") or cal.endswith("HashMap::get_mut") or cal.endswith("BTreeMap::get")):
+            return None
+        mp, key = _root_place(body, rv["args"][0]), rv["args"][1]
+        kc = const_val(body.trace(key))
+        key = ("const", kc) if kc is not None else _root_place(body, key)
+    else:
+        return None
+    for blk, val, m, args, ct in _bool_call_facts(body, ("contains_key",)):
+        if val is not True or len(args) < 2 or not _same_place(args[0], mp):
+            continue
+        k2c = const_val(body.trace(ct["args"][1]))
+        same = (isinstance(key, tuple) and key[1] == k2c and k2c is not None) or (not isinstance(key, tuple) and _same_place(args[1], key))
+        if same and body.dominates(blk, site.bb) and len(body.pred[blk]) == 1:
+            return "D15 key checked by contains_key() on %s" % place_str(mp)
+    return None
+
+
+def _cmp_facts(body):
+    """[(block, placeA, op, const-or-place B)] facts `A op B` holding when the block is entered"""
+    NEG = {"Lt": "Ge", "Le": "Gt", "Gt": "Le", "Ge": "Lt", "Eq": "Ne", "Ne": "Eq"}
+    out = []
+    for i, blk in enumerate(body.blocks):
+        t = blk["term"]
+        if t["k"] != "Sw":
+            continue
+        sp = op_place(t["o"])
+        if sp is None or sp["pr"]:
+            continue
+        ds = body.defs_of(sp["l"])
+        if len(ds) != 1 or ds[0][3].get("k") != "Bin" or ds[0][3]["op"] not in NEG:
+            continue
+        rv = ds[0][3]
+        tt = _bool_switch_targets(t)
+        if tt is None or tt[0] == tt[1]:
+            continue
+        a, b = _root_place(body, rv["a"]), rv["b"]
+        bc = const_val(b)
+        bb_ = ("const", bc) if bc is not None else _root_place(body, b)
+        out.append((tt[0], a, rv["op"], bb_))
+        out.append((tt[1], a, NEG[rv["op"]], bb_))
+    return out
+
+
+def d17_nonempty_range(body, site):
+    """rng.random_range(a..b) with b > a established by a dominating comparison (the other branch diverges)"""
+    if site.kind != "call:random_range":
+        return None
+    rv = body.trace(site.term["args"][1])
+    if not (isinstance(rv, dict) and rv.get("k") == "Agg" and "Range" in rv["ak"] and len(rv["ops"]) == 2):
+        return None
+    lo, hi = rv["ops"]
+    lc, hc = const_val(body.trace(lo)), const_val(body.trace(hi))
+    if isinstance(lc, int) and isinstance(hc, int):
+        return "D17 constant non-empty range" if hc > lc else None
+    lp, hp = _root_place(body, lo), _root_place(body, hi)
+    for blk, a, op, b in _cmp_facts(body):
+        if not (body.dominates(blk, site.bb) and len(body.pred[blk]) == 1):
+            continue
+        # hi > lo
+        if isinstance(lc, int) and _same_place(a, hp) and isinstance(b, tuple) and isinstance(b[1], int):
+            if (op == "Gt" and b[1] >= lc) or (op == "Ge" and b[1] > lc):
+                return "D17 upper bound %s > %d by a dominating comparison" % (place_str(hp), lc)
+        if lp is not None and hp is not None and not isinstance(b, tuple):
+            if _same_place(a, hp) and _same_place(b, lp) and op == "Gt":
+                return "D17 upper bound > lower bound by a dominating comparison"
+            if _same_place(a, lp) and _same_place(b, hp) and op == "Lt":
+                return "D17 lower bound < upper bound by a dominating comparison"
+    return None
+
+
+def d3d_first_of_nonempty(body, site):
+    """v[0] where v.is_empty() is false here"""
+    if site.kind != "call:index":
+        return None
+    t = site.term
+    idx = const_val(body.trace(t["args"][1])) if len(t["args"]) > 1 else None
+    if idx != 0:
+        return None
+    target = _root_place(body, t["args"][0])
+    for blk, val, m, args, ct in _bool_call_facts(body, ("is_empty",)):
+        if val is False and args and _same_place(args[0], target) and body.dominates(blk, site.bb) and len(body.pred[blk]) == 1:
+            return "D3 index 0 of %s, which is not empty here" % place_str(target)
+    return None
+
+
+_DEFAULT_SOME = None
+
+
+def d9_default_config(prog):
+    """unwrap of a field of the default configuration that Config::default initialises with Some(..)"""
+    fields = set()
+    f = prog.fns.get("config::Config::default")
+    if f and "hir" in f:
+        import hirq
+        for x in hirq.walk_exprs(f["hir"]):
+            if x["k"] == "Struct":
+                for fl in x["fields"]:
+                    e = hirq.peel(fl["e"], methods=False)
+                    if e["k"] == "Call" and e.get("ctor") and hirq.short(e["callee"], 1) == "Some":
+                        fields.add(fl["name"])
+    # main binds default_config to Config::default()
+    ok = False
+    m = prog.fns.get("main")
+    if m and "hir" in m:
+        import hirq
+        for x in hirq.walk(m["hir"]):
+            if x["k"] == "Let" and x["pat"].get("name") == "default_config" and "init" in x and \
+                    hirq.is_call_to(hirq.peel(x["init"]), "config::Config::default"):
+                ok = True
+
+    def rule(body, site):
+        if site.kind != "call:unwrap" or not ok:
+            return None
+        d = site.desc
+        mm = re.match(r"^(?:Option::as_ref\()?(?:self\.)?default_config\.(\w+)\)?$", d)
+        if mm and mm.group(1) in fields:
+            return "D9 default_config.%s is Some(..) in Config::default" % mm.group(1)
+        return None
+
+    return rule
 
 
 def d7_macro_glue(body, site):
@@ -549,10 +833,13 @@ def d7_macro_glue(body, site):
 RULES = [d1_guarded_receiver, d2_valid_constant, d3_bounded_index, d4_guarded_sub, d5_counter_increment, d8_constant_arithmetic, d7_macro_glue]
 
 
-def discharge(prog, sites):
+def discharge(prog, sites, extra_rules=()):
+    rules = RULES + [d3b_constant_range, d3c_fixed_vec, d3d_first_of_nonempty, d12_array_from_slice, d13_captures_group0,
+                     d14_constant_divisor, d1b_nonempty, d15_contains_key, d17_nonempty_range,
+                     d9_default_config(prog)] + list(extra_rules)
     for s in sites:
         body = prog.body(s.fn)
-        for r in RULES:
+        for r in rules:
             try:
                 note = r(body, s)
             except Exception as e:  # a discharge rule must never hide a site by crashing
